@@ -708,8 +708,14 @@ func runFaults(spec *Spec, r *Ref, m *MethodSpec, fn reflect.Value, S, T reflect
 				}
 				if j != len(gotSeq) {
 					addViol(Violation{Kind: "error_path", Method: m.Name, Detail: fmt.Sprintf("wrapErrors prefixes %v are not an ordered subsequence of the location %v (fault %d): %s", gotSeq, exp, plan[0], got.Error()), Source: srcStr})
-				} else if len(exp) > 0 && !strings.HasPrefix(exp[len(exp)-1], "key:") && len(gotSeq) == 0 {
-					addViol(Violation{Kind: "error_path", Method: m.Name, Detail: fmt.Sprintf("wrapErrors added no location although the failing element is %v: %s", exp, got.Error()), Source: srcStr})
+				} else if len(exp) > 0 && !strings.HasPrefix(exp[len(exp)-1], "key:") {
+					// the method in which the call fails adds the innermost element it was setting: the last prefix
+					// must be the last element of the location
+					if len(gotSeq) == 0 {
+						addViol(Violation{Kind: "error_path", Method: m.Name, Detail: fmt.Sprintf("wrapErrors added no location although the failing element is %v: %s", exp, got.Error()), Source: srcStr})
+					} else if gotSeq[len(gotSeq)-1] != exp[len(exp)-1] {
+						addViol(Violation{Kind: "error_path", Method: m.Name, Detail: fmt.Sprintf("wrapErrors innermost element is %s, the failing element is %s (location %v, fault %d): %s", gotSeq[len(gotSeq)-1], exp[len(exp)-1], exp, plan[0], got.Error()), Source: srcStr})
+					}
 				}
 			}
 		}
